@@ -1657,6 +1657,20 @@ func (f *frame) goStmt(ins *ssa.Go) {
 	}
 	vc.assumptions["A-GO goroutine "+name+" spawned: verified separately, no interleaving semantics"] = true
 	con := vc.specs.Contracts["go:"+name]
+	{
+		// `callsite go:<fn>: assert e` states what must hold where the goroutine is started
+		var args []Term
+		var argTypes []types.Type
+		for _, a := range ins.Call.Args {
+			args = append(args, f.val(a))
+			argTypes = append(argTypes, a.Type())
+		}
+		callee := ins.Call.StaticCallee()
+		if mc, ok := ins.Call.Value.(*ssa.MakeClosure); ok {
+			callee = mc.Fn.(*ssa.Function)
+		}
+		f.callsiteAsserts("go:"+name, callee, &ins.Call, args, argTypes, ins.Pos())
+	}
 	if con != nil {
 		var args []Term
 		var argTypes []types.Type
